@@ -125,6 +125,18 @@ func (s *Srv) NewConn() (*grpc.ClientConn, btpb.BigtableClient, btapb.BigtableTa
 	return conn, btpb.NewBigtableClient(conn), btapb.NewBigtableTableAdminClient(conn), nil
 }
 
+// NewSmallWindowConn is NewConn with fixed 64 KiB HTTP/2 flow-control windows (no dynamic window growth): a server
+// that sends more than that to a client which is not reading blocks in Send.
+func (s *Srv) NewSmallWindowConn() (*grpc.ClientConn, btpb.BigtableClient, error) {
+	conn, err := grpc.NewClient(s.Conn.Target(), grpc.WithTransportCredentials(insecure.NewCredentials()),
+		grpc.WithInitialWindowSize(65535), grpc.WithInitialConnWindowSize(65535),
+		grpc.WithDefaultCallOptions(grpc.MaxCallRecvMsgSize(maxMsg), grpc.MaxCallSendMsgSize(maxMsg)))
+	if err != nil {
+		return nil, nil, err
+	}
+	return conn, btpb.NewBigtableClient(conn), nil
+}
+
 func (s *Srv) SetClock(us int64) { atomic.StoreInt64(&s.clock, us) }
 func (s *Srv) Clock() int64      { return atomic.LoadInt64(&s.clock) }
 
